@@ -233,6 +233,13 @@ pub fn hide(
             }
         }
 
+        // The error page's own extension line isn't part of the page (the pipeline cuts it off
+        // when it serves the page for a path which doesn't exist).
+        if let Some(arguments) = &arguments {
+            let body = error.body().slice(arguments.data_start()..);
+            *error.body_mut() = body;
+        }
+
         *data.response = error.map(Into::into);
     }
     #[cfg(not(feature = "templates"))]
@@ -269,7 +276,12 @@ pub fn ip_allow<'a>(data: &'a mut extensions::PresentData<'a>) -> RetFut<'a, ()>
 
         if !matched {
             // If it does not match, set the response to 404
-            let error = default_error(StatusCode::NOT_FOUND, Some(data.host), None).await;
+            let mut error = default_error(StatusCode::NOT_FOUND, Some(data.host), None).await;
+            // The error page's own extension line isn't part of the page (see `hide`).
+            if let Some(arguments) = utils::extensions::PresentExtensions::new(error.body().clone()) {
+                let body = error.body().slice(arguments.data_start()..);
+                *error.body_mut() = body;
+            }
             *data.response = error.map(Into::into);
         }
         // after the response may have been replaced
